@@ -354,3 +354,6 @@ def run(ctx: Ctx, rep: Report, tier: str):
     for attr in ("_oids", "_paths", "_changeset_storage", "_dirtyset"):
         rep.check("C11.X10", "forget|%s" % attr, fg, attr in reset, "reset by forget()",
                   "SyncState.forget no longer resets `%s`: after forget() the containers disagree (e.g. entries still pending whose index entries and rows are gone)" % attr)
+    from rules.common import rename_copy_guard
+    rep.rule("C11.X11", "re-keying an entry on rename never overwrites an indexed peer half (C04.R11)", 1)
+    rename_copy_guard(ctx, rep, "C11.X11")
